@@ -55,12 +55,13 @@ class RegShapes:
             o = self.ty(d[2])
             return ("bitseq", self.shape(d[1], depth - 1), o["path"][-1] if o["path"] else "?")
         if k == "composite":
+            if path == ["PhantomData"]: return ("phantom",)
             if path == ["Cow"]:
                 inner = t["params"][0][1]
                 return self.shape(inner, depth)
-            return ("struct", [(f["name"], self.shape(f["ty"], depth - 1)) for f in d[1]])
+            return ("struct", nophantom([(f["name"], self.shape(f["ty"], depth - 1)) for f in d[1]]))
         if k == "variant":
-            return ("enum", [(v["name"], v["index"], [(f["name"], self.shape(f["ty"], depth - 1)) for f in v["fields"]]) for v in d[1]])
+            return ("enum", [(v["name"], v["index"], nophantom([(f["name"], self.shape(f["ty"], depth - 1)) for f in v["fields"]])) for v in d[1]])
         raise ShapeError(k)
 
 class TokShapes:
@@ -107,9 +108,9 @@ class TokShapes:
             if p == a + "::vec::Vec": arity(1); return ("seq", arg(0, depth - 1))
             if p == a + "::boxed::Box": arity(1); return arg(0, depth)
             if p == "core::option::Option":
-                arity(1); return ("enum", [("None", 0, []), ("Some", 1, [(None, arg(0, depth - 1))])])
+                arity(1); return ("enum", [("None", 0, []), ("Some", 1, nophantom([(None, arg(0, depth - 1))]))])
             if p == "core::result::Result":
-                arity(2); return ("enum", [("Ok", 0, [(None, arg(0, depth - 1))]), ("Err", 1, [(None, arg(1, depth - 1))])])
+                arity(2); return ("enum", [("Ok", 0, nophantom([(None, arg(0, depth - 1))])), ("Err", 1, nophantom([(None, arg(1, depth - 1))]))])
             if p == a + "::collections::BTreeMap":
                 arity(2); return ("struct", [(None, ("seq", ("tuple", [arg(0, depth - 3), arg(1, depth - 3)]) if depth > 2 else ("cut",)) if depth > 1 else ("cut",))])
             if p in (a + "::collections::BTreeSet", a + "::collections::BinaryHeap"):
@@ -119,21 +120,21 @@ class TokShapes:
             if p in ("core::ops::Range", "core::ops::RangeInclusive"):
                 arity(1); return ("struct", [("start", arg(0, depth - 1)), ("end", arg(0, depth - 1))])
             if p.startswith("core::num::") and segs[-1] in NONZERO: arity(0); return ("struct", [(None, ("prim", NONZERO[segs[-1]]))])
-            if p == "core::marker::PhantomData": return ("struct", [])
+            if p == "core::marker::PhantomData": return ("phantom",)
             if p == "core::time::Duration": return ("struct", [(None, ("prim", "U64")), (None, ("prim", "U32"))])
             raise ShapeError("unknown absolute path ::%s" % p)
         item = self.lookup(segs)
         if len(args) != len(item["params"]): raise ShapeError("%s applied to %d arguments but declares %d parameters" % (p, len(args), len(item["params"])))
         env2 = {pn: (a_, env) for pn, a_ in zip(item["params"], args)}
         if item["kind"] == "struct":
-            return ("struct", [self.field(f, env2, depth) for f in item["fields"] if not is_marker(f)])
+            return ("struct", nophantom([self.field(f, env2, depth) for f in item["fields"] if not is_marker(f)]))
         out = []
         for v in item["variants"]:
             if v["name"] == "__Ignore": continue
             idx = codec_attr(v["attrs"], "index")
             if idx is None: raise ShapeError("variant %s::%s has no codec index" % (p, v["name"]))
             if len(idx) != 3 or idx[2][0] != "l": raise ShapeError("malformed codec index")
-            out.append((v["name"], idx[2][1], [self.field(f, env2, depth) for f in v["fields"]]))
+            out.append((v["name"], idx[2][1], nophantom([self.field(f, env2, depth) for f in v["fields"]])))
         return ("enum", out)
     def order_name(self, ty, env):
         """last path segment of the bit-order type, chasing generic parameters"""
@@ -147,6 +148,9 @@ class TokShapes:
         if codec_attr(f["attrs"], "compact") is not None: s = ("compact", s)
         return (f["name"], s)
 
+def nophantom(fields):
+    """PhantomData occupies no bytes and scale-info omits such fields: they do not count as fields of the shape"""
+    return [f for f in fields if f[1] != ("phantom",)]
 def is_marker(f):
     ty = f["ty"]
     return ty[0] == "path" and ty[1] and ty[2] == ["core", "marker", "PhantomData"] and (f["name"] in (None, "__ignore"))
@@ -156,6 +160,7 @@ def shape_eq(a, b):
     if a[0] == "cut" or b[0] == "cut": return True
     if a[0] != b[0]: return False
     k = a[0]
+    if k == "phantom": return True
     if k == "prim": return a[1] == b[1]
     if k in ("seq", "compact"): return shape_eq(a[1], b[1])
     if k == "bitseq": return a[2] == b[2] and shape_eq(a[1], b[1])
